@@ -23,6 +23,12 @@ CLAIMED = {
  "C17": dict(cat="exploration", technique="comment-attribution monitor (per-declaration comment lists + global multiset) over generated and real files",
    text="Comment-dense generated files and standard-library files are rewritten by 12 patches (elided statement patterns, signature-changing declaration patterns, multi-change patches) through API and CLI; comments are attributed to top-level declarations by source interval on both sides and compared for every declaration whose syntax is canonically unchanged; header comments and global multiset inclusion are checked for every run.",
    note="Import declarations only take part in the multiset check; a detached comment must survive only when both neighbouring declarations are untouched (the statement speaks of doc, interior and trailing comments).", ref="5/C17"),
+ "C09": dict(cat="exploration", technique="metamorphic monitor: combined run vs chain of single-change in-place CLI runs; all deliveries (-p, -P, stdin, API) byte-equal",
+   text="Sequences of 2-5 changes (chains where change k+1 only matches code produced by k, killers, independent, no-op and failing members) are run once combined and once as a chain of separate in-place runs on scratch copies; canonical trees must agree, a failing step must make the combined run fail and leave the file byte-identical, and the five CLI deliveries plus the library API must agree byte for byte.",
+   note="Stated bounds (DESIGN 5/C09): no explicit parentheses in patterns/sources, metavariables only in argument slots, no imports; inside them equality is demanded exactly. No reference model involved.", ref="5/C09"),
+ "C13": dict(cat="exploration", technique="metamorphic monitor over layout variants of one patch (API outputs as canonical trees; CLI stderr descriptions)",
+   text="Each base patch (random patterns, schema library, the repository's testdata patches with their inputs) is re-laid out by 10 compositions of the transformations the statement lists; every variant must be accepted iff the base is and give canonically the same output on every file; '#' lines directly above the header, and only those, must be printed as the description.",
+   note="Only transformations named in the property statement are generated; description text compared modulo leading '#'/blanks.", ref="5/C13"),
 #NEXT
 }
 
